@@ -4,7 +4,7 @@ import shutil
 from concurrent.futures import ThreadPoolExecutor
 
 from vlib import flow, lean, repo
-from vlib.common import fresh_scratch, log
+from vlib.common import fresh_scratch, log, run as sh, sha, REPO, SCRATCH, VERIF
 from checks import filtergen as G
 
 MANIFEST = {
@@ -16,10 +16,13 @@ MANIFEST = {
             "(repo_patches/10..12-fix-filter-*) is kept and the NEGATIONS are proved on it with minimal witnesses, which are "
             "replayed on the real bin/filter on every run. Tie: thread x batch-size grid on the real tool, per-order counts "
             "steered to k*b, k*b+-1, 0, all modes and both formats, every run under a timeout, outputs byte-compared with "
-            "threads:1, with the Lean driver's sequential filter and with the model run under random schedules.",
+            "threads:1, with the Lean driver's sequential filter and with the model run under random schedules; plus stream "
+            "filter-sched: the real filter_main pipeline in-process (harness/c12_sched.cc) under seeded delay injection at the "
+            "KPU_KENLM_VERIF scheduling points of PCQueue/ThreadPool (several hundred perturbed schedules per quick run, watchdog, "
+            "hangs confirmed by a threads:1 control and re-runs of the same seed), outputs byte-compared with threads:1.",
     "note": "Trusted: Lean kernel + standard axioms; statements in lean/Properties/C12.lean; atomicity of PCQueue Produce/Consume "
-            "and FIFO exactly-once delivery (property C17's theorem) are assumptions of the model; real OS schedules are only "
-            "sampled (each configuration is run several times).",
+            "and FIFO exactly-once delivery are C17's theorem pcqueue_refines_fifo (cited, build-checked); real OS schedules are "
+            "sampled and perturbed at the hook points, not enumerated.",
     "technique": "Lean 4 proof (inductive invariant over an executable transition system, all schedules) + differential "
                  "correspondence with the real CLI tool",
 }
@@ -304,6 +307,128 @@ def gen_case(rng, tier):
     return case
 
 
+# ------------------------------------------------------------------ perturbed schedules of the real Controller
+SCHED_TIMEOUT = 40
+
+
+def build_sched_harness(bdir):
+    """harness/c12_sched.cc = lm/filter/filter_main.cc in-process + a delay hook at the KPU_KENLM_VERIF points"""
+    src = os.path.join(VERIF, "harness", "c12_sched.cc")
+    key = sha(repo.tree_hash(), open(src, "rb").read(), "c12_sched-v1")
+    out = os.path.join(SCRATCH, "build", repo.tree_hash(), "harness")
+    os.makedirs(out, exist_ok=True)
+    exe = os.path.join(out, "c12_sched_" + key)
+    if os.path.exists(exe):
+        return True, exe, "cached"
+    tmp = exe + ".tmp%d" % os.getpid()
+    lib = os.path.join(bdir, "lib")
+    cmd = ["g++", "-std=c++11", "-O1", "-g", "-w", "-UNDEBUG", "-DKPU_KENLM_VERIF", "-DKENLM_MAX_ORDER=6", "-I", REPO, "-pthread",
+           src, os.path.join(lib, "libkenlm_filter.a"), os.path.join(lib, "libkenlm.a"), os.path.join(lib, "libkenlm_util.a"),
+           "-lboost_thread", "-lboost_system", "-lz", "-lbz2", "-llzma", "-lrt", "-o", tmp]
+    rc, o, e = sh(cmd, timeout=600)
+    if rc != 0:
+        return False, None, "harness c12_sched.cc does not compile against the current tree:\n" + (o + e)[-3000:]
+    os.replace(tmp, exe)
+    return True, exe, "built"
+
+
+def sched_run(env, hexe, case, threads, batch, seed, tag, timeout=SCHED_TIMEOUT, permille=200, max_stalls=60):
+    """one perturbed schedule of the real pipeline; returns (status, files, cmd)"""
+    prefix = os.path.join(env.work, "sch_%s_" % tag)
+    for fn in os.listdir(env.work):
+        if fn.startswith("sch_%s_" % tag):
+            os.unlink(os.path.join(env.work, fn))
+    cmd = [hexe, str(seed), str(permille), str(max_stalls)] + G.tool_cmd(
+        "filter", case["mode"], case["context"], case["fmt"], threads, batch, case["vp"], prefix, bool(case.get("phrase")))[1:]
+    rc, o, e = sh(cmd, timeout=timeout, input=case["model"], binary=True)
+    if rc == "timeout":
+        st = "hang"
+    elif rc == 0:
+        st = "ok"
+    elif isinstance(rc, int) and (rc < 0 or rc >= 126):
+        st = "crash"
+    else:
+        st = "error"
+    return st, G.collect(prefix, case["mode"] == "multiple"), cmd
+
+
+def gen_sched_case(rng):
+    """enough batches in flight at the same time: small batches, 40..120 n-grams, equal-length lines half of the time"""
+    mode = rng.choice(["single", "union", "multiple", "multiple"])
+    fmt = rng.choice(["arpa", "arpa", "raw"])
+    equal_len = rng.random() < 0.5
+    words = G.gen_words(rng, rng.choice([6, 12]), equal_len)
+    case = dict(mode=mode, context=rng.random() < 0.2, fmt=fmt)
+    if fmt == "arpa":
+        counts = [rng.randrange(8, 50) for _ in range(rng.choice([2, 3]))]
+        model, orders = G.gen_arpa(rng, words, counts, equal_len=equal_len)
+        case.update(model=model, orders=orders)
+    else:
+        model, lines = G.gen_raw(rng, words, rng.randrange(40, 120), equal_len=equal_len)
+        case.update(model=model)
+    case["vocab"] = G.gen_vocab_single(rng, words, frac=0.8) if mode == "single" else G.gen_sentences(rng, words, messy=not equal_len)
+    return case
+
+
+def sched_stream(env, hexe, pool):
+    """stream `filter-sched`: the real Controller / workers / PCQueues under seeded delay injection at the
+    scheduling points; every run byte-compared with bin/filter threads:1."""
+    ctx = env.ctx
+    ncases = 16 if ctx.tier == "quick" else 80
+    nsched = 30 if ctx.tier == "quick" else 60
+    for ci in range(ncases):
+        case = gen_sched_case(ctx.rng)
+        multiple = case["mode"] == "multiple"
+        vp, mp = env.paths(case["vocab"], case["model"])
+        case["vp"], case["mp"] = vp, mp
+        st1, ref, cmd1 = run_config(env, case, 1, 1, "sref")
+        if st1 != "ok":
+            ctx.violation("threads:1 run failed (%s)" % st1, {"cmd": cmd1, "model": case["model"].decode("latin-1")})
+            return True
+        jobs = []
+        for si in range(nsched):
+            jobs.append((ctx.rng.choice([2, 2, 3, 4]), ctx.rng.choice([1, 1, 2, 3]), ctx.rng.randrange(1, 1 << 30), si))
+
+        def one(j):
+            t, b, seed, si = j
+            return j, sched_run(env, hexe, case, t, b, seed, "c%d_s%d" % (ci, si))
+
+        for j, (st, files, cmd) in pool.map(one, jobs):
+            t, b, seed, si = j
+            d = classify(ref, st, files, multiple)
+            ctx.count(("sched", case["model"][:64], t, b, seed), nontrivial=True)
+            ctx.hist("sched_status", st if d is None else ("VIOLATION:" + (d if d in ("hang", "crash", "error") else "diff")))
+            ctx.hist("sched_threads", t)
+            if d is None:
+                continue
+            confirmed = None
+            if d == "hang":
+                # a hang is reported only when the machine is demonstrably alive and the same seed fails again
+                cst, cfiles, _ = sched_run(env, hexe, case, 1, b, seed, "ctl", timeout=SCHED_TIMEOUT)
+                again = []
+                for r in range(3):
+                    st2, f2, _ = sched_run(env, hexe, case, t, b, seed, "re%d" % r, timeout=2 * SCHED_TIMEOUT)
+                    again.append(classify(ref, st2, f2, multiple))
+                    if again[-1] is not None:
+                        break
+                confirmed = {"control_threads1": cst, "reruns": again}
+                if cst != "ok" or all(a is None for a in again):
+                    ctx.hist("sched_unconfirmed_timeouts", 1)
+                    log("  [C12] schedule timeout not confirmed (control=%s, reruns=%s): not reported" % (cst, again))
+                    continue
+            ctx.violation(
+                "perturbed schedule of the real Controller differs from threads:1 (%s) for %s %s threads:%d batch_size:%d seed %d" % (
+                    d, case["mode"], case["fmt"], t, b, seed),
+                {"stream": "filter-sched", "replay_cmd": " ".join(cmd) + " < MODEL   # compare with bin/filter threads:1",
+                 "status": st, "difference": d, "confirmation": confirmed, "threads": t, "batch_size": b, "sched_seed": seed,
+                 "mode": case["mode"], "context": case["context"], "format": case["fmt"],
+                 "vocab": case["vocab"].decode("latin-1"), "model": case["model"].decode("latin-1"),
+                 "threads1_files": {k: v.decode("latin-1")[:1500] for k, v in ref.items()},
+                 "perturbed_files": {k: v.decode("latin-1")[:1500] for k, v in files.items()}})
+            return True
+    return False
+
+
 def run(ctx):
     problems, consts = flow.proof_phase(ctx, "C12", required=REQUIRED, drivers=["drv_C12"])
     ok, bdir, lg = repo.build("tools", targets=["filter", "query"])
@@ -340,6 +465,13 @@ def run(ctx):
                 ctx.sample({"mode": case["mode"], "context": case["context"], "fmt": case["fmt"], "configs": configs,
                             "model_head": case["model"][:160].decode("latin-1"), "vocab_head": case["vocab"][:80].decode("latin-1")})
             if check_case(env, case, configs, reps, pool):
+                found = True
+        # 3. perturbed schedules of the real pipeline (hooks at the PCQueue / ThreadPool scheduling points)
+        if env.found < 6:
+            okh, hexe, lgh = build_sched_harness(bdir)
+            if not okh:
+                problems.append(lgh)
+            elif sched_stream(env, hexe, pool):
                 found = True
     finally:
         pool.shutdown(wait=True)
